@@ -255,6 +255,40 @@ func readyClosedOnce(c *core.Ctx) {
 				}
 				return true
 			})
+			// or the enclosing function is itself only ever handed to sync.Once.Do (`once.Do(d.startRequest)`)
+			if self := info.Defs[fd.Name]; !inOnce && self != nil {
+				refs, viaOnce := 0, 0
+				for _, g := range p.AllFuncDecls(p.Connect) {
+					var doArgs []ast.Expr
+					ast.Inspect(g.Body, func(z ast.Node) bool {
+						if oc, ok := z.(*ast.CallExpr); ok {
+							if f := astx.CalleeFunc(info, oc); f != nil && f.Name() == "Do" && astx.TypeIs(recvType(f), "sync", "Once") && len(oc.Args) == 1 {
+								doArgs = append(doArgs, oc.Args[0])
+							}
+						}
+						return true
+					})
+					ast.Inspect(g.Body, func(z ast.Node) bool {
+						id, ok := z.(*ast.Ident)
+						if !ok || info.Uses[id] != self {
+							return true
+						}
+						refs++
+						for _, a := range doArgs {
+							// the argument is the method value itself, not a call of it inside something else
+							if sel, isSel := astx.Unparen(a).(*ast.SelectorExpr); isSel && sel.Sel == id {
+								viaOnce++
+							} else if astx.Unparen(a) == ast.Expr(id) {
+								viaOnce++
+							}
+						}
+						return true
+					})
+				}
+				if refs > 0 && refs == viaOnce {
+					inOnce = true
+				}
+			}
 			_, isGo := x.(*ast.GoStmt)
 			c.Check(inOnce && isGo, "start/"+core.FuncName(fd), call.Pos(), "makeRequest is started as a goroutine inside sync.Once.Do (in %s)", core.FuncName(fd))
 			return true
